@@ -117,7 +117,12 @@ Definition run_C12 (c : c12case) : list Z :=
   | CJson fs lits =>
       match local_store fs lits with
       | Some j => [1; zb (conform (map lf fs) (Some j))] ++ map (fun f => jcode (jget j (f_short (lf f)))) fs
-      | None => [0; -1]
+      | None =>
+          (* refused locally; if only because of explicit nulls: what a peer says of the content with those nulls *)
+          match forced_store fs lits with
+          | Some j => [0; zb (conform (map lf fs) (Some j))] ++ map (fun f => jcode (jget j (f_short (lf f)))) fs
+          | None => [0; -1]
+          end
       end
   end.
 
@@ -158,6 +163,7 @@ Definition violations12 (c : c12case) (obs : list Z) : list Z :=
                                                  (Z.eqb (snd p) 0 && negb (f_nullable (lf (fst p))))   (* the text "null" *)
                                       | _ => false end) (combine fs kinds) in
         if scal then [2] else [0]
+      else if Z.eqb l 0 && Z.eqb r 1 then [0]            (* refused locally (an explicit null), accepted by peers *)
       else []
   | _, _ => [0]
   end.
